@@ -17,7 +17,9 @@ from spawn import parse, child_vec, hx, unhx, forked
 NAMES = [b"A", b"B", b"C", b"D", b"Z", b"PATH", b"LONG_NAME_1"]
 VALS = [b"", b"1", b"2", b"x y", b"v=w", b"\xff\x01", b"/usr/bin:/bin", b"0"]
 CMDS = ["cmd=" + hx(b"/bin/true"), "cmd=" + hx(b"true"), "cmd=" + hx(b"no-such-program-xyz"),
-        "cmd=sh:" + hx(b"true"), "cmd=sh:" + hx(b"exit 3")]
+        "cmd=sh:" + hx(b"true"), "cmd=sh:" + hx(b"exit 3"),
+        # a shell command string is bytes like any argument: not valid UTF-8, with quotes and blanks
+        "cmd=sh:" + hx(b": caf\xe9 \xff\xfe 'r\xe9sum\xe9.txt'"), "cmd=" + hx(b"/bin/tru\xe9")]
 TERMS = ["popen", "join", "stream_stdout", "stream_stderr", "stream_stdin", "capture", "communicate"]
 CWDS = [b"/", b"/tmp", b"/no-such-dir-xyz"]
 
@@ -50,6 +52,10 @@ def gen(ctx):
                 "data:%s clone clone clonekeep" % hx(b"x" * 5000)):
         for t in ("capture", "communicate", "join"):
             specs.append(f"{CMDS[0]} {ops} term:{t}")
+    for cmd in CMDS[5:]:
+        for t in ("popen", "join", "capture"):
+            specs.append(f"{cmd} arg:{hx(bytes([0xe9, 0x20, 0xff]))} term:{t}")
+            specs.append(f"{cmd} clone env:{hx(b'A')}:{hx(bytes([0xff]))} term:{t}")
     # detached() before and after clone(): every copy keeps the setting it had when it was made
     for ops in ("det clone", "det clonekeep", "clone det", "det clone clone", "det arg:%s clone env:%s:%s" % (hx(b"x"), hx(b"A"), hx(b"1")),
                 "clone", "det"):
